@@ -580,6 +580,51 @@ func C10(tier string) int {
 		}
 		st.close()
 	}
+	// volume part: the drivers delete a prefix in blocks of a literal size (deleteBlockSize = 10000 in badger,
+	// leveldb and pebble), so a prefix delete is also run over key counts around that constant and its
+	// multiples; afterwards the store must hold exactly the one key outside the prefix, like the sorted map.
+	// (pebble deletes with one synced write per key: its large sizes run in the thorough tier only)
+	volume := 0
+	for _, drv := range drivers {
+		sizes := []int{9998, 9999, 10000, 10001, 20001}
+		if drv == "pebble" && tier != "thorough" {
+			sizes = []int{101}
+		}
+		for _, n := range sizes {
+			st := &c10Store{name: drv, dir: filepath.Join(work, fmt.Sprintf("vol-%s-%d", drv, n))}
+			os.MkdirAll(st.dir, 0o755)
+			if err := st.open(); err != nil {
+				fmt.Fprintf(os.Stderr, "C10: cannot open %s: %v\n", drv, err)
+				return 2
+			}
+			st.kv.BulkWrite(func(bl kvi.KVBulkWrite) error {
+				for i := 0; i < n; i++ {
+					bl.Set([]byte(fmt.Sprintf("p%06d", i)), []byte("x"))
+				}
+				return bl.Set([]byte("q"), []byte("y"))
+			})
+			st.kv.DeletePrefix([]byte("p"))
+			left, first := 0, ""
+			st.kv.View(func(it kvi.KVIterator) error {
+				for it.Seek([]byte("")); it.Valid(); it.Next() {
+					if left == 0 {
+						first = string(it.Key())
+					}
+					left++
+				}
+				return nil
+			})
+			volume++
+			if left != 1 || first != "q" {
+				run.Report(vf.Violation{Sig: fmt.Sprintf("%s|DeletePrefix|volume|keys-left-behind", drv),
+					Detail: fmt.Sprintf("%s: %d keys p000000.. and the key q; after DeletePrefix(p) the store holds %d keys (first %q), the sorted map holds exactly q", drv, n, left, first),
+					Replay: map[string]any{"driver": drv, "keys_under_prefix": n, "mutator": "DeletePrefix(p)"}})
+			}
+			st.close()
+			os.RemoveAll(st.dir)
+		}
+	}
+	run.Coverage["prefix_delete_volume_cases"] = volume
 	gTransitions, gCursorRuns, gOpens := 0, 0, 0
 	perDriver := map[string]int{}
 	var samples []any
